@@ -20,7 +20,7 @@ DISTINCT = ('cells',)
 REQUIRED = ('mode_raw', 'mode_binary_file', 'mode_text_file', 'mode_pickle_inline', 'mode_pickle_file',
             'streams', 'rejected_values', 'jsondisk_roundtrips', 'deque_roundtrips', 'index_roundtrips',
             'fanout_roundtrips', 'push_roundtrips', 'fault_injected_stores', 'configs_lookup_in_transaction',
-            'configs_lookup_lock_free')
+            'configs_lookup_lock_free', 'relative_directory_roundtrips', 'relocated_directory_roundtrips')
 ASSUMPTIONS = ('equality oracle: same type, same bits for floats, same code points, same bytes, recursive for containers',
                'JSONDisk is exercised with JSON fixed-point values only (no tuples, non-str dict keys, bytes)')
 
@@ -504,6 +504,55 @@ def judge_after_fault(cache, res, case, cls, how, key, v, prev, outcome, fault_d
                 cls, how, outcome, fault_desc, describe(now), want), {'class': cls, 'store_path': how, 'fault': fault_desc})
 
 
+def relocation(dc, sc, res, rng, T):
+    """The same values through a cache whose directory is given as a relative path, and after the closed directory was
+    renamed and copied elsewhere: what is stored does not depend on what the directory is called."""
+    import os
+    import shutil
+    cfg_label = {'T': T, 'disk': 'Disk', 'relocation': True}
+    case = Case(res, cfg_label, signature)
+    vals = [(c, v) for c, v in values(rng, T, False) if 'surrogate' not in c]
+    rng.shuffle(vals)
+    vals = vals[:45]
+    base = sc.new()
+    os.makedirs(base)
+    old_cwd = os.getcwd()
+    try:
+        os.chdir(base)
+        rel = os.path.join('caches', 'rel')
+        cache = dc.Cache(rel, disk_min_file_size=T)
+        dq = dc.Deque(directory=os.path.join('caches', 'dq'))
+        dq.cache.reset('disk_min_file_size', T)
+        for i, (cls, v) in enumerate(vals):
+            cache.set('k%d' % i, v)
+            dq.append(v)
+            case.judge(cls, 'set(relative directory)', 'get', v, cache.get('k%d' % i), 'any')
+            case.judge(cls, 'Deque.append(relative directory)', 'deque[-1]', v, dq[-1], 'any')
+            res.count('relative_directory_roundtrips')
+        cache.close()
+        dq.cache.close()
+        os.chdir(old_cwd)
+        moved = os.path.join(base, 'moved-cache')
+        os.rename(os.path.join(base, 'caches', 'rel'), moved)
+        copied = os.path.join(base, 'copied-deque')
+        shutil.copytree(os.path.join(base, 'caches', 'dq'), copied)
+        again = dc.Cache(moved)
+        dq2 = dc.Deque(directory=copied)
+        try:
+            for i, (cls, v) in enumerate(vals):
+                case.judge(cls, 'set, close, rename directory, reopen', 'get', v, again.get('k%d' % i, '<MISSING>'), 'any')
+                res.count('relocated_directory_roundtrips')
+            stored = list(dq2)
+            for (cls, v), got in zip(vals, stored + ['<MISSING>'] * (len(vals) - len(stored))):
+                case.judge(cls, 'Deque.append, close, copy directory, reopen', 'iteration', v, got, 'any')
+        finally:
+            again.close()
+            dq2.cache.close()
+    finally:
+        os.chdir(old_cwd)
+        sc.drop(base)
+
+
 def run_shard(tier, seed, shard, nshards, res):
     dc = common.use_repo()
     probe.install()
@@ -527,3 +576,4 @@ def run_shard(tier, seed, shard, nshards, res):
         T = [0, 1, 16, 32768][shard % 4]
         run_containers(dc, sc, res, rng, T, shard % 6)
         fault_roundtrips(dc, sc, res, rng, [64, 16, 1000, 32768][shard % 4])
+        relocation(dc, sc, res, rng, [0, 1, 100, 32768][shard % 4])
